@@ -240,13 +240,15 @@ func c10RandTok(rng *rand.Rand, rich bool) string {
 
 func c10RandPat(rng *rand.Rand, rich bool) string {
 	n := 1 + rng.Intn(10)
-	switch rng.Intn(10) {
+	switch rng.Intn(12) {
 	case 0:
 		n = 1 + rng.Intn(3)
 	case 1:
 		n = 12 + rng.Intn(20)
 	case 2:
 		n = 40 + rng.Intn(24) // up to 63
+	case 3:
+		n = []int{1, 2, 31, 32, 33, 62, 63}[rng.Intn(7)] // word-size boundaries of the state words
 	}
 	var b strings.Builder
 	for i := 0; i < n; i++ {
@@ -303,11 +305,39 @@ func c10RandSeq(rng *rand.Rand, n int, class int) []byte {
 			s[i] = "-.*0N@[z"[rng.Intn(8)]
 		case class == 3:
 			s[i] = "ac"[rng.Intn(2)]
+		case class == 4:
+			s[i] = "acgtACGT"[rng.Intn(8)]
 		default:
 			s[i] = "acgt"[rng.Intn(4)]
 		}
 	}
 	return s
+}
+
+// bytes left behind the sequence in its buffer (see Exec): instances of the pattern and of its mirror image
+func c10Stale(toks []c10Tok, sane bool) []byte {
+	var unit []byte
+	if sane {
+		for _, tl := range [][]c10Tok{toks, c10RcToks(toks)} {
+			for _, t := range tl {
+				c := byte('a')
+				for _, x := range []byte("acgt") {
+					if t.set[x-'a'] {
+						c = x
+						break
+					}
+				}
+				unit = append(unit, c)
+			}
+		}
+	} else {
+		unit = []byte("acgt")
+	}
+	var out []byte
+	for len(out) < 2*c10MaxPatLen {
+		out = append(out, unit...)
+	}
+	return out
 }
 
 func c10Case(op, pat string, e int, indel, rc bool, seq []byte, circ bool, begin, length int) string {
@@ -362,6 +392,53 @@ func (c10) Gen(rng *rand.Rand, tier string, emit func(string)) {
 		c10Case("find", strings.Repeat("ACGT", 16)+"A", 1, false, false, []byte(strings.Repeat("acgt", 20)), false, 0, -1), // 65
 		c10Case("find", strings.Repeat("ACGT", 15)+"ACG", 2, false, false, []byte(strings.Repeat("acgt", 20)), false, 0, -1), // 63
 		c10Case("find", strings.Repeat("ACGT", 15)+"ACG", 2, true, false, []byte(strings.Repeat("acgt", 20)), false, 0, -1),
+		// FilterBestMatch / AllMatches / BestMatch: first hit beyond position 10000 (sentinel compared with a position, repaired)
+		c10Case("filter", "ACGT", 0, false, false, []byte(strings.Repeat("t", 10010)+"acgt"+"tttt"), false, 0, -1),
+		c10Case("filter", "ACGT", 1, false, false, []byte(strings.Repeat("t", 10010)+"acgt"+"ttttttacgtt"), false, 0, -1),
+		c10Case("all", "ACGT", 1, true, false, []byte(strings.Repeat("t", 10010)+"acgt"+"tttt"), false, 0, -1),
+		c10Case("best", "ACGT", 1, true, false, []byte(strings.Repeat("t", 10010)+"agt"+"tttt"), false, 0, -1),
+		c10Case("filter", "ACGT", 0, false, false, []byte(strings.Repeat("t", 9996)+"acgt"+"tttt"), false, 0, -1), // first hit just below the sentinel
+		c10Case("filter", "ACGT", 0, false, false, []byte(strings.Repeat("t", 9997)+"acgt"+"tttt"), false, 9990, -1),
+		// hit at the very start of a window with begin > 0; hit straddling the window start; window end inside the sequence
+		c10Case("find", "ACGT", 1, false, false, []byte("ttacgtttttt"), false, 2, 0),
+		c10Case("find", "ACGT", 1, false, false, []byte("ttacgtttttt"), false, 3, 0),
+		c10Case("find", "ACGT", 1, true, false, []byte("ttacgtttttt"), false, 3, 0),
+		c10Case("find", "ACGT", 1, true, false, []byte("ttacgtttttt"), false, 2, 0),
+		c10Case("find", "ACGT", 0, false, false, []byte(strings.Repeat("t", 70)+"acgt"+"tt"), false, 5, 5), // window end = 74 = end of the site
+		c10Case("find", "ACGT", 0, false, false, []byte(strings.Repeat("t", 70)+"acgt"+"tt"), false, 5, 4), // one short
+		c10Case("find", "ACGT", 1, true, false, []byte(strings.Repeat("t", 70)+"acgt"+"tt"), false, 5, 4),
+		// budgets up to the pattern length; word-size boundaries
+		c10Case("find", "ACGT", 4, false, false, []byte("ggggacg"), false, 0, -1),
+		c10Case("find", "ACGT", 4, true, false, []byte("ggggacg"), false, 0, -1),
+		c10Case("find", "ACGT", 5, true, false, []byte("gg"), false, 0, -1),
+		c10Case("find", "A", 1, true, false, []byte("cg"), false, 0, -1),
+		c10Case("find", "A", 0, false, false, []byte("cag"), false, 0, -1),
+		c10Case("find", strings.Repeat("ACGT", 8)[:31], 2, false, false, []byte(strings.Repeat("acgt", 20)), false, 0, -1),
+		c10Case("find", strings.Repeat("ACGT", 8), 2, true, false, []byte(strings.Repeat("acgt", 20)), false, 0, -1),
+		c10Case("find", strings.Repeat("ACGT", 8)+"A", 2, true, false, []byte(strings.Repeat("acgt", 20)), false, 1, -1),
+		c10Case("find", strings.Repeat("ACGT", 15)+"ACG", 63, false, false, []byte(strings.Repeat("acgt", 20)), false, 0, -1),
+		c10Case("find", strings.Repeat("ACGT", 15)+"ACG", 63, true, false, []byte(strings.Repeat("acgt", 20)), false, 0, -1),
+		// obligatory positions with indels: start exception, no insertion after '#', insertion before
+		c10Case("find", "A#C", 1, true, false, []byte("c"), false, 0, -1),
+		c10Case("find", "A#C", 1, true, false, []byte("tc"), false, 0, -1),
+		c10Case("find", "A#C", 1, true, false, []byte("tc"), false, 1, -1),
+		c10Case("find", "A#C", 1, true, false, []byte("agc"), false, 0, -1),
+		c10Case("find", "AC#", 1, true, false, []byte("agc"), false, 0, -1),
+		c10Case("find", "A#C#G#", 2, true, false, []byte("ttacgttagttcg"), false, 0, -1),
+		c10Case("find", "ACG#TA", 2, true, false, []byte("acgtaacgaaactata"), false, 0, -1),
+		// upper-case sequence
+		c10Case("find", "ACGT", 0, false, false, []byte("ttACGTtt"), false, 0, -1),
+		c10Case("all", "ACGT", 1, true, false, []byte("ttACTtt"), false, 0, -1),
+		// circular sequences shorter than MAX_PAT_LEN (EncodeSequence over-read, repaired): junction hit, nothing else
+		c10Case("find", "ACGT", 0, false, false, []byte("gtttac"), true, 0, -1),
+		c10Case("find", "ACGT", 1, false, false, []byte("gtttac"), true, 0, -1),
+		c10Case("find", "ACGT", 1, true, false, []byte("gtttac"), true, 0, -1),
+		c10Case("find", "ACGT", 1, false, true, []byte("gtttac"), true, 2, 3),
+		c10Case("find", "AC", 0, false, false, []byte("c"), true, 0, -1),
+		c10Case("find", "A", 0, false, false, []byte(""), true, 0, -1),
+		c10Case("find", "ACGTACGT", 2, false, false, []byte("acg"), true, 0, -1), // pattern longer than the circle
+		c10Case("is", "ACGT", 0, false, false, []byte("gtttac"), true, 0, -1),
+		c10Case("filter", "ACGT", 1, false, false, []byte("gtttacgtttac"), true, 0, -1),
 		"locate " + c10H("ACGT") + " " + c10H("cgttt"),
 		"locate " + c10H("ACGT") + " " + c10H("ttacgttt"),
 		"locate " + c10H("ACGT") + " " + c10H("acgt"),
@@ -400,6 +477,10 @@ func (c10) Gen(rng *rand.Rand, tier string, emit func(string)) {
 			for _, s := range seqs {
 				for e := 0; e <= 2; e++ {
 					emit(c10Case("find", p, e, false, false, s, false, 0, -1))
+					if e <= 1 && len(s) > 0 {
+						emit(c10Case("find", p, e, e == 1, false, s, true, 0, -1)) // circular, shorter than MAX_PAT_LEN
+						emit(c10Case("find", p, e, false, false, s, false, 1, len(s)-1)) // window starting at 1
+					}
 					if e > 0 {
 						emit(c10Case("find", p, e, true, false, s, false, 0, -1))
 						emit(c10Case("all", p, e, true, false, s, false, 0, -1))
@@ -461,17 +542,23 @@ func (c10) Gen(rng *rand.Rand, tier string, emit func(string)) {
 			toks, sane := c10Parse(pat)
 			// sequence: random background with planted (mutated) instances, some touching the ends
 			class := 0
-			switch rng.Intn(12) {
+			switch rng.Intn(13) {
 			case 0:
 				class = 1
 			case 1:
 				class = 2
 			case 2:
 				class = 3
+			case 3:
+				class = 4
+			}
+			if toks != nil && rng.Intn(8) == 0 {
+				// budgets up to the pattern length (and one more): every position becomes a hit
+				e = min(63, rng.Intn(len(toks)+2))
 			}
 			var seq []byte
 			bg := rng.Intn(30)
-			if rng.Intn(8) == 0 {
+			if rng.Intn(6) == 0 {
 				bg = 60 + rng.Intn(200)
 			}
 			if rng.Intn(4) == 0 {
@@ -480,15 +567,18 @@ func (c10) Gen(rng *rand.Rand, tier string, emit func(string)) {
 				seq = c10RandSeq(rng, rng.Intn(bg+1), class)
 			}
 			nsite := rng.Intn(4)
+			var sites, siteEnds []int
 			for sidx := 0; sidx < nsite; sidx++ {
+				sites = append(sites, len(seq))
 				var inst []byte
 				if sane {
 					inst = c10Instance(rng, toks)
 				} else {
 					inst = c10RandSeq(rng, 1+rng.Intn(10), 0)
 				}
-				inst = c10Mutate(rng, inst, rng.Intn(e+2), indel)
+				inst = c10Mutate(rng, inst, rng.Intn(min(e, 4)+2), indel)
 				seq = append(seq, inst...)
+				siteEnds = append(siteEnds, len(seq))
 				if rng.Intn(3) != 0 {
 					seq = append(seq, c10RandSeq(rng, rng.Intn(bg+1), class)...)
 				}
@@ -497,10 +587,30 @@ func (c10) Gen(rng *rand.Rand, tier string, emit func(string)) {
 			if len(seq) >= c10MaxPatLen && rng.Intn(4) == 0 {
 				circ = true
 			}
+			if len(seq) < c10MaxPatLen && rng.Intn(6) == 0 {
+				circ = true // shorter than MAX_PAT_LEN: the extension is the sequence itself (over-read repaired)
+			}
 			begin, length := 0, -1
-			if rng.Intn(3) == 0 {
+			switch rng.Intn(6) {
+			case 0, 1:
 				begin = rng.Intn(len(seq)+2) - 1
 				length = rng.Intn(len(seq)+3) - 1
+			case 2:
+				// window starting at / one before / one after a planted site
+				if len(sites) > 0 {
+					begin = max(0, sites[rng.Intn(len(sites))]+rng.Intn(3)-1)
+					length = rng.Intn(len(seq) + 1)
+				}
+			case 3:
+				// window whose END (begin+length+MAX_PAT_LEN) falls at / next to the end of a planted site
+				if len(sites) > 0 {
+					k := rng.Intn(len(sites))
+					end := siteEnds[k] + rng.Intn(3) - 1
+					if end-c10MaxPatLen >= 0 {
+						begin = rng.Intn(end - c10MaxPatLen + 1)
+						length = end - c10MaxPatLen - begin
+					}
+				}
 			}
 			op := []string{"find", "find", "find", "filter", "all", "all", "best", "best", "is"}[rng.Intn(9)]
 			if indel && rng.Intn(2) == 0 && rich {
@@ -693,8 +803,9 @@ func (c10) Exec(c string) (string, []Fail) {
 				}
 			}
 			indel, rc, circ := f[3] == "1", f[4] == "1", f[6] == "1"
-			if circ && len(seq) < c10MaxPatLen {
-				return "bad-op" // EncodeSequence reads in[0..64) whatever the length: not exercised
+			shortCirc := circ && len(seq) < c10MaxPatLen
+			if shortCirc {
+				stat("circular:short")
 			}
 			pat := string(pb)
 			p0, err := obiapat.MakeApatPattern(pat, e, indel)
@@ -702,6 +813,7 @@ func (c10) Exec(c string) (string, []Fail) {
 				return "err"
 			}
 			toks, sane := c10Parse(pat)
+			toks0, sane0 := toks, sane
 			p := p0
 			if rc {
 				if p0.Len() >= c10MaxPatLen {
@@ -723,6 +835,17 @@ func (c10) Exec(c string) (string, []Fail) {
 				}
 			}
 			bs := obiseq.NewBioSequence("x", seq, "")
+			if shortCirc {
+				// A circular sequence shorter than MAX_PAT_LEN: the unrepaired EncodeSequence copied in[0..64) whatever the
+				// length, i.e. the bytes that follow the sequence in its (pooled, re-used) buffer.  Make those bytes
+				// deterministic and hostile through the public API only: write the sequence followed by instances of the
+				// pattern, clear, write the sequence again (what a parser re-using a BioSequence buffer does).
+				stale := c10Stale(toks0, sane0)
+				bs = obiseq.NewBioSequence("x", append(append([]byte{}, seq...), stale...), "")
+				lowseq := append([]byte{}, bs.Sequence()[:len(seq)]...)
+				bs.Clear()
+				bs.Write(lowseq)
+			}
 			low := bs.Sequence()
 			fresh, err := obiapat.MakeApatSequence(bs, circ)
 			if err != nil {
@@ -749,7 +872,7 @@ func (c10) Exec(c string) (string, []Fail) {
 			}
 			data := low
 			if circ {
-				data = append(append([]byte{}, low...), low[:c10MaxPatLen]...)
+				data = append(append([]byte{}, low...), low[:min(c10MaxPatLen, len(low))]...)
 			}
 			b0, l0 := begin, length
 			if b0 < 0 {
@@ -770,6 +893,7 @@ func (c10) Exec(c string) (string, []Fail) {
 
 			raw := p.FindAllIndex(fresh, begin, length)
 			raw2 := p.FindAllIndex(rec, begin, length)
+			c10Stats(m, e, indel, begin, length, n, b0, wend, circ, seq, raw)
 			if c10Hits(raw) != c10Hits(raw2) {
 				fail("recycle.differs", "fresh ApatSequence: %s, recycled: %s", c10Hits(raw), c10Hits(raw2))
 			}
@@ -800,6 +924,22 @@ func (c10) Exec(c string) (string, []Fail) {
 						if t.oblig {
 							noOblig = false
 						}
+					}
+					if !noOblig {
+						// the alignments of `ReachO` (Lemmas/ApatIndelOblig.lean), by an independent DP: an obligatory position is never
+						// substituted / deleted and nothing is inserted right after it; in front of the window any prefix is deleted
+						best := c10BestEndingOblig(toks, win)
+						var want [][3]int
+						for q := 1; q <= len(win); q++ {
+							if best[q] <= e {
+								st := b0 + q - m
+								want = append(want, [3]int{st, st + m, best[q]})
+							}
+						}
+						if c10Hits(want) != c10Hits(raw) {
+							fail("find.indel-oblig"+sigx, "pattern %q e=%d window [%d,%d): reported %s, constrained edit-distance reference %s", pat, e, b0, wend, c10Hits(raw), c10Hits(want))
+						}
+						stat(fmt.Sprintf("indel-oblig:hits=%d", min(len(want), 3)))
 					}
 					if noOblig {
 						best := c10BestEnding(m, func(j int, c byte) bool { return c10TokMatch(toks[j], c) }, win)
@@ -997,6 +1137,134 @@ func (c10) Exec(c string) (string, []Fail) {
 		caseTrivial = true
 	}
 	return res, fails
+}
+
+// generator / branch statistics of one search
+func c10Stats(m, e int, indel bool, begin, length, n, b0, wend int, circ bool, seq []byte, raw [][3]int) {
+	switch {
+	case m == 1, m == 31, m == 32, m == 33, m == 63:
+		stat(fmt.Sprintf("patlen:%d", m))
+	case m < 31:
+		stat("patlen:2-30")
+	case m < 63:
+		stat("patlen:34-62")
+	default:
+		stat("patlen:>=64")
+	}
+	switch {
+	case e == 0:
+		stat("budget:0")
+	case e >= m:
+		stat("budget:>=patlen")
+	case e > 4:
+		stat("budget:5..patlen-1")
+	default:
+		stat("budget:1-4")
+	}
+	mode := "sub"
+	if e == 0 {
+		mode = "noerr"
+	} else if indel {
+		mode = "indel"
+	}
+	stat("kernel:" + mode)
+	if n < m {
+		stat("seq:shorter-than-pattern")
+	}
+	if n == 0 {
+		stat("seq:empty")
+	}
+	for _, c := range seq {
+		if c >= 'A' && c <= 'Z' {
+			stat("seq:upper-case")
+			break
+		}
+	}
+	for _, c := range seq {
+		if !(c >= 'a' && c <= 'z') && !(c >= 'A' && c <= 'Z') {
+			stat("seq:non-letter")
+			break
+		}
+	}
+	if begin > 0 {
+		stat("window:begin>0")
+	}
+	if begin < 0 {
+		stat("window:begin<0")
+	}
+	if begin >= n && n > 0 {
+		stat("window:begin-beyond-end")
+	}
+	if length >= 0 && b0+length+c10MaxPatLen < n {
+		stat("window:end-inside-sequence")
+	}
+	for _, h := range raw {
+		if h[0] == b0 && b0 > 0 {
+			stat("hit:at-window-start(begin>0)")
+		}
+		if h[0] == 0 {
+			stat("hit:at-offset-0")
+		}
+		if h[0] < 0 {
+			stat("hit:negative-start(indel)")
+		}
+		if h[1] == n && !circ {
+			stat("hit:touching-sequence-end")
+		}
+		if h[1] == wend && wend < n {
+			stat("hit:touching-window-end")
+		}
+		if circ && h[0] < n && h[1] > n {
+			stat("hit:across-circular-origin")
+		}
+		if circ && h[0] >= n {
+			stat("hit:in-circular-extension")
+		}
+		if h[0] >= 10000 {
+			stat("hit:beyond-10000")
+		}
+	}
+	if len(raw) == 0 {
+		stat("hits:none")
+	}
+}
+
+// least cost, for every end position q of w, of an alignment of the token list with a suffix of w[:q] in which an
+// obligatory position is matched exactly (never substituted, never deleted) and is not followed by an inserted symbol;
+// exception: in front of w any prefix of the pattern may be deleted (what ManberIndel's init loop sets up)
+func c10BestEndingOblig(toks []c10Tok, w []byte) []int {
+	m := len(toks)
+	prev := make([]int, m+1) // column t-1
+	cur := make([]int, m+1)
+	for j := range prev {
+		prev[j] = j
+	}
+	out := make([]int, len(w)+1)
+	out[0] = m
+	for t := 1; t <= len(w); t++ {
+		cur[0] = 0
+		for j := 1; j <= m; j++ {
+			d := c10Inf
+			if c10TokMatch(toks[j-1], w[t-1]) {
+				d = prev[j-1]
+			}
+			if !toks[j-1].oblig {
+				if prev[j]+1 < d { // insertion of w[t-1] after position j
+					d = prev[j] + 1
+				}
+				if prev[j-1]+1 < d { // substitution
+					d = prev[j-1] + 1
+				}
+				if cur[j-1]+1 < d { // deletion of position j
+					d = cur[j-1] + 1
+				}
+			}
+			cur[j] = d
+		}
+		out[t] = cur[m]
+		prev, cur = cur, prev
+	}
+	return out
 }
 
 // oracle for LocatePattern(p, s) = (from, to, score): span inside s, score = edit distance (with the aligner's own
